@@ -143,15 +143,16 @@ func (Migrator) Migrate(
 		}
 
 		if !shouldMigrate {
-			// Blocks without transactions leave nothing in the old buckets, so a run that was
-			// interrupted before a tail of empty blocks cannot be told from a finished one by
-			// looking at them. Those blocks still need their (empty) combined record.
-			firstMissing, err := firstTailBlockWithoutCombinedRecord(database, chainHeight)
+			// Blocks without transactions leave nothing in the old buckets, so neither a run that
+			// was interrupted before reaching them nor the blocks in front of the first transaction
+			// can be told from converted ones by looking at those buckets. Every stored block still
+			// needs its (empty) combined record: convert the runs of blocks that lack one.
+			first, last, found, err := nextRunWithoutCombinedRecord(database, chainHeight)
 			if err != nil {
 				return shouldRerun, err
 			}
-			if firstMissing <= chainHeight {
-				res := migrateBlockRange(ctx, database, logger, firstMissing, chainHeight)
+			if found {
+				res := migrateBlockRange(ctx, database, logger, first, last)
 				if res.Err != nil || !res.IsDone {
 					return shouldRerun, res.Err
 				}
